@@ -1,71 +1,120 @@
 /- REGENERATED from /repo on every run by /verif/harness/cmd/extract — do not edit. -/
 namespace Ibx.Gen.Lua
 
-structure Handler where
-  goName : String
-  luaName : String         -- argument of prepareInbucketFuncCall (first statement)
-  notOkReturns : Bool      -- second statement: if !ok { return [nil] }
-  deferPut : Bool          -- third statement: defer h.pool.putState(ls)
-  fn : String              -- Fn of the lua.P literal
-  nret : Option Nat
-  protect : Bool
-  errReturnsNil : Bool     -- the err != nil branch of CallByParam ends with return nil
-  getTopPop : Bool         -- lval := ls.Get(-1); ls.Pop(1)
-  lvIsFalse : Bool         -- if lua.LVIsFalse(lval) { return nil }
-  unwrap : String          -- result, err := <unwrap>(lval)
-  returnsResult : Bool     -- last statement: return result
-  gets : Nat               -- direct calls of h.pool.getState in the body
-  puts : Nat               -- calls of h.pool.putState in the body
+/-- one control-flow path of a function after inlining the package's own helpers.
+    conds: what must hold (sorted); effects: the calls / stores that matter, in execution order; ret: what is returned
+    (`-` = nothing, `?…` = a shape the extractor does not understand).
+    Names: $recv / $0 / $1 = receiver and parameters; S = the state handed out by the pool's get; `fn->T(…)` = a helper of
+    the package that is not inlined, named by its result types (`.err` = its error result); `<T>` = the receiver's unexported
+    field of type T (`<free>` = the pool's free list); get / put / new / flush = the pool's methods, found by what they do. -/
+structure Path where
+  conds : List String
+  effects : List String
+  ret : String
   deriving DecidableEq, Repr
 
-/-- wireFunctions: (function slot tested for non-nil, event broker, listener registered), in source order -/
-def wired : List (String × String × String) := [("ib.After.MessageDeleted", "AfterMessageDeleted", "handleAfterMessageDeleted"), ("ib.After.MessageStored", "AfterMessageStored", "handleAfterMessageStored"), ("ib.Before.MailFromAccepted", "BeforeMailFromAccepted", "handleBeforeMailFromAccepted"), ("ib.Before.MessageStored", "BeforeMessageStored", "handleBeforeMessageStored"), ("ib.Before.RcptToAccepted", "BeforeRcptToAccepted", "handleBeforeRcptToAccepted")]
+/-- a listener registered with AddListener: the slot tested for non-nil in front of the registration, the event broker,
+    and what the registered method does -/
+structure Listener where
+  slot : String            -- `<inbucket>.A.B != nil` guarding the registration
+  event : String           -- Events.<event>.AddListener
+  fn : String              -- slot passed as Fn of lua.P to CallByParam
+  nret : Option Nat
+  protect : Bool           -- every Lua entry of every path is CallByParam with Protect: true (and there is one)
+  deferPut : Bool          -- on every path `defer put(S)` comes before the first call on S
+  gets : Nat               -- pool gets on a path (max)
+  puts : Nat               -- pool puts on a path (max)
+  paths : List Path
+  deriving DecidableEq, Repr
 
-/-- every method of Host whose name starts with `handle`, in source order -/
-def handlers : List Handler := [
-  { goName := "handleAfterMessageDeleted", luaName := "after.message_deleted", notOkReturns := true, deferPut := true, fn := "ib.After.MessageDeleted", nret := some 0, protect := true, errReturnsNil := false, getTopPop := false, lvIsFalse := false, unwrap := "", returnsResult := false, gets := 0, puts := 1 },
-  { goName := "handleAfterMessageStored", luaName := "after.message_stored", notOkReturns := true, deferPut := true, fn := "ib.After.MessageStored", nret := some 0, protect := true, errReturnsNil := false, getTopPop := false, lvIsFalse := false, unwrap := "", returnsResult := false, gets := 0, puts := 1 },
-  { goName := "handleBeforeMailFromAccepted", luaName := "before.mail_from_accepted", notOkReturns := true, deferPut := true, fn := "ib.Before.MailFromAccepted", nret := some 1, protect := true, errReturnsNil := true, getTopPop := true, lvIsFalse := false, unwrap := "unwrapSMTPResponse", returnsResult := true, gets := 0, puts := 1 },
-  { goName := "handleBeforeRcptToAccepted", luaName := "before.rcpt_to_accepted", notOkReturns := true, deferPut := true, fn := "ib.Before.RcptToAccepted", nret := some 1, protect := true, errReturnsNil := true, getTopPop := true, lvIsFalse := false, unwrap := "unwrapSMTPResponse", returnsResult := true, gets := 0, puts := 1 },
-  { goName := "handleBeforeMessageStored", luaName := "before.message_stored", notOkReturns := true, deferPut := true, fn := "ib.Before.MessageStored", nret := some 1, protect := true, errReturnsNil := true, getTopPop := true, lvIsFalse := true, unwrap := "unwrapInboundMessage", returnsResult := true, gets := 0, puts := 1 }]
+/-- every AddListener call of the package, sorted by slot -/
+def listeners : List Listener := [
+  { slot := "After.MessageDeleted", event := "AfterMessageDeleted", fn := "After.MessageDeleted", nret := some 0, protect := true, deferPut := true, gets := 1, puts := 1,
+    paths := [
+    { conds := ["(S.err != nil)"], effects := ["get()"], ret := "-" },
+    { conds := ["(S.err == nil)", "(fn->*Inbucket(S).err != nil)"], effects := ["get()", "fn->*Inbucket(S)"], ret := "-" },
+    { conds := ["(S.err == nil)", "(fn->*Inbucket(S).err == nil)"], effects := ["get()", "fn->*Inbucket(S)", "defer put(S)", "S.CallByParam(gopher-lua.P{Fn: fn->*Inbucket(S).After.MessageDeleted, NRet: 0, Protect: true}, fn->*gopher-lua.LUserData(S, &$0))"], ret := "-" }] },
+  { slot := "After.MessageStored", event := "AfterMessageStored", fn := "After.MessageStored", nret := some 0, protect := true, deferPut := true, gets := 1, puts := 1,
+    paths := [
+    { conds := ["(S.err != nil)"], effects := ["get()"], ret := "-" },
+    { conds := ["(S.err == nil)", "(fn->*Inbucket(S).err != nil)"], effects := ["get()", "fn->*Inbucket(S)"], ret := "-" },
+    { conds := ["(S.err == nil)", "(fn->*Inbucket(S).err == nil)"], effects := ["get()", "fn->*Inbucket(S)", "defer put(S)", "S.CallByParam(gopher-lua.P{Fn: fn->*Inbucket(S).After.MessageStored, NRet: 0, Protect: true}, fn->*gopher-lua.LUserData(S, &$0))"], ret := "-" }] },
+  { slot := "Before.MailFromAccepted", event := "BeforeMailFromAccepted", fn := "Before.MailFromAccepted", nret := some 1, protect := true, deferPut := true, gets := 1, puts := 1,
+    paths := [
+    { conds := ["(S.CallByParam(..) != nil)", "(S.err == nil)", "(fn->*Inbucket(S).err == nil)"], effects := ["get()", "fn->*Inbucket(S)", "defer put(S)", "S.CallByParam(gopher-lua.P{Fn: fn->*Inbucket(S).Before.MailFromAccepted, NRet: 1, Protect: true}, fn->*gopher-lua.LUserData(S, &$0))"], ret := "nil" },
+    { conds := ["(S.CallByParam(..) == nil)", "(S.err == nil)", "(fn->*Inbucket(S).err == nil)"], effects := ["get()", "fn->*Inbucket(S)", "defer put(S)", "S.CallByParam(gopher-lua.P{Fn: fn->*Inbucket(S).Before.MailFromAccepted, NRet: 1, Protect: true}, fn->*gopher-lua.LUserData(S, &$0))", "S.Get(-1)", "S.Pop(1)", "fn->*event.SMTPResponse(S.Get(-1))"], ret := "fn->*event.SMTPResponse(S.Get(-1))" },
+    { conds := ["(S.err != nil)"], effects := ["get()"], ret := "nil" },
+    { conds := ["(S.err == nil)", "(fn->*Inbucket(S).err != nil)"], effects := ["get()", "fn->*Inbucket(S)"], ret := "nil" }] },
+  { slot := "Before.MessageStored", event := "BeforeMessageStored", fn := "Before.MessageStored", nret := some 1, protect := true, deferPut := true, gets := 1, puts := 1,
+    paths := [
+    { conds := ["!gopher-lua.LVIsFalse(S.Get(-1))", "(S.CallByParam(..) == nil)", "(S.err == nil)", "(fn->*Inbucket(S).err == nil)"], effects := ["get()", "fn->*Inbucket(S)", "defer put(S)", "S.CallByParam(gopher-lua.P{Fn: fn->*Inbucket(S).Before.MessageStored, NRet: 1, Protect: true}, fn->*gopher-lua.LUserData(S, &$0))", "S.Get(-1)", "S.Pop(1)", "fn->*event.InboundMessage(S.Get(-1))"], ret := "fn->*event.InboundMessage(S.Get(-1))" },
+    { conds := ["(S.CallByParam(..) != nil)", "(S.err == nil)", "(fn->*Inbucket(S).err == nil)"], effects := ["get()", "fn->*Inbucket(S)", "defer put(S)", "S.CallByParam(gopher-lua.P{Fn: fn->*Inbucket(S).Before.MessageStored, NRet: 1, Protect: true}, fn->*gopher-lua.LUserData(S, &$0))"], ret := "nil" },
+    { conds := ["(S.CallByParam(..) == nil)", "(S.err == nil)", "(fn->*Inbucket(S).err == nil)", "gopher-lua.LVIsFalse(S.Get(-1))"], effects := ["get()", "fn->*Inbucket(S)", "defer put(S)", "S.CallByParam(gopher-lua.P{Fn: fn->*Inbucket(S).Before.MessageStored, NRet: 1, Protect: true}, fn->*gopher-lua.LUserData(S, &$0))", "S.Get(-1)", "S.Pop(1)"], ret := "nil" },
+    { conds := ["(S.err != nil)"], effects := ["get()"], ret := "nil" },
+    { conds := ["(S.err == nil)", "(fn->*Inbucket(S).err != nil)"], effects := ["get()", "fn->*Inbucket(S)"], ret := "nil" }] },
+  { slot := "Before.RcptToAccepted", event := "BeforeRcptToAccepted", fn := "Before.RcptToAccepted", nret := some 1, protect := true, deferPut := true, gets := 1, puts := 1,
+    paths := [
+    { conds := ["(S.CallByParam(..) != nil)", "(S.err == nil)", "(fn->*Inbucket(S).err == nil)"], effects := ["get()", "fn->*Inbucket(S)", "defer put(S)", "S.CallByParam(gopher-lua.P{Fn: fn->*Inbucket(S).Before.RcptToAccepted, NRet: 1, Protect: true}, fn->*gopher-lua.LUserData(S, &$0))"], ret := "nil" },
+    { conds := ["(S.CallByParam(..) == nil)", "(S.err == nil)", "(fn->*Inbucket(S).err == nil)"], effects := ["get()", "fn->*Inbucket(S)", "defer put(S)", "S.CallByParam(gopher-lua.P{Fn: fn->*Inbucket(S).Before.RcptToAccepted, NRet: 1, Protect: true}, fn->*gopher-lua.LUserData(S, &$0))", "S.Get(-1)", "S.Pop(1)", "fn->*event.SMTPResponse(S.Get(-1))"], ret := "fn->*event.SMTPResponse(S.Get(-1))" },
+    { conds := ["(S.err != nil)"], effects := ["get()"], ret := "nil" },
+    { conds := ["(S.err == nil)", "(fn->*Inbucket(S).err != nil)"], effects := ["get()", "fn->*Inbucket(S)"], ret := "nil" }] }]
 
-/-- statements of prepareInbucketFuncCall (whitespace-normalised) -/
-def prepare : List String := ["logger = h.logContext.Logger().With().Str(\"event\", funcName).Logger()", "ls, err := h.pool.getState()", "if err != nil { logger.Error().Err(err).Msg(\"Failed to get Lua state instance from pool\") return logger, nil, nil, false }", "ib, err = getInbucket(ls)", "if err != nil { logger.Error().Err(err).Msg(\"Failed to obtain Lua inbucket object\") return logger, nil, nil, false }", "return logger, ls, ib, true"]
-
-/-- Lua entry points in lua.go / pool.go that are not protected calls (CallByParam without Protect: true, Call, DoString, DoFile) -/
+/-- Lua entry points anywhere in the package that are not protected calls (CallByParam without a literal Protect: true, Call, DoString, DoFile, Resume) -/
 def unprotectedCalls : List String := []
 
-/-- __newindex of inbucket.before / inbucket.after: (Lua name, function slot of the Inbucket struct assigned with CheckFunction) -/
-def luaNames : List (String × String) := [("before.mail_from_accepted", "ib.Before.MailFromAccepted"), ("before.message_stored", "ib.Before.MessageStored"), ("before.rcpt_to_accepted", "ib.Before.RcptToAccepted"), ("after.message_deleted", "ib.After.MessageDeleted"), ("after.message_stored", "ib.After.MessageStored")]
+/-- number of CallByParam call sites in the package -/
+def callByParamSites : Nat := 5
 
-/-- cases of the __index of the `inbucket` global -/
-def inbucketIndex : List String := ["\"after\" => ls.Push(wrapInbucketAfter(ls, &ib.After))", "\"before\" => ls.Push(wrapInbucketBefore(ls, &ib.Before))"]
+/-- (Lua name, slot of the Inbucket struct): `inbucket.<k1>.<k2> = f` stores f (CheckFunction(3)) in that slot — from the __index / __newindex functions -/
+def luaNames : List (String × String) := [("after.message_deleted", "After.MessageDeleted"), ("after.message_stored", "After.MessageStored"), ("before.mail_from_accepted", "Before.MailFromAccepted"), ("before.message_stored", "Before.MessageStored"), ("before.rcpt_to_accepted", "Before.RcptToAccepted")]
 
-/-- unwrapSMTPResponse: types asserted (in order), and the final statement (failure result) -/
-def unwrapResponse : List String × String := (["*lua.LUserData", "*event.SMTPResponse"], "return nil, fmt.Errorf(...)")
+/-- __index of the `inbucket` global: (key, field of Inbucket whose address is wrapped and pushed) -/
+def inbucketIndex : List (String × String) := [("after", "After"), ("before", "Before")]
 
-/-- unwrapInboundMessage: types asserted (in order), and the final statement (failure result) -/
-def unwrapInbound : List String × String := (["*lua.LUserData", "*event.InboundMessage"], "return nil, fmt.Errorf(...)")
+/-- the functions func(lua.LValue) (*event.T, error): (T, paths) -/
+def unwraps : List (String × List Path) := [
+  ("*event.InboundMessage", [
+    { conds := ["!is($0, *gopher-lua.LUserData)"], effects := [], ret := "nil, <error>" },
+    { conds := ["!is($0.(*gopher-lua.LUserData).Value, *event.InboundMessage)", "is($0, *gopher-lua.LUserData)"], effects := [], ret := "nil, <error>" },
+    { conds := ["is($0, *gopher-lua.LUserData)", "is($0.(*gopher-lua.LUserData).Value, *event.InboundMessage)"], effects := [], ret := "$0.(*gopher-lua.LUserData).Value.(*event.InboundMessage), nil" }]),
+  ("*event.SMTPResponse", [
+    { conds := ["!is($0, *gopher-lua.LUserData)"], effects := [], ret := "nil, <error>" },
+    { conds := ["!is($0.(*gopher-lua.LUserData).Value, *event.SMTPResponse)", "is($0, *gopher-lua.LUserData)"], effects := [], ret := "nil, <error>" },
+    { conds := ["is($0, *gopher-lua.LUserData)", "is($0.(*gopher-lua.LUserData).Value, *event.SMTPResponse)"], effects := [], ret := "$0.(*gopher-lua.LUserData).Value.(*event.SMTPResponse), nil" }])]
 
-/-- newSMTPResponse: statements executed only for ActionDeny -/
-def denyDefaults : List String := ["val.ErrorCode = ls.OptInt(1, 550)", "val.ErrorMsg = ls.OptString(2, \"Mail denied by policy\")"]
+/-- the closure that builds smtp.allow / defer / deny results ($o0 = the action it was made for) -/
+def smtpCtor : List Path := [
+    { conds := ["($o0 != event.ActionDeny)"], effects := ["$0.Push(fn->*gopher-lua.LUserData($0, &event.SMTPResponse{Action: $o0}))"], ret := "1" },
+    { conds := ["($o0 == event.ActionDeny)"], effects := ["$0.OptInt(1, 550)", "&event.SMTPResponse{Action: $o0}.ErrorCode := $0.OptInt(1, 550)", "$0.OptString(2, \"Mail denied by policy\")", "&event.SMTPResponse{Action: $o0}.ErrorMsg := $0.OptString(2, \"Mail denied by policy\")", "$0.Push(fn->*gopher-lua.LUserData($0, &event.SMTPResponse{Action: $o0}))"], ret := "1" }]
 
-/-- statements of statePool.getState -/
-def getState : List String := ["lp.Lock()", "defer lp.Unlock()", "ln := len(lp.states)", "if ln == 0 { return lp.newState() }", "state := lp.states[ln-1]", "lp.states = lp.states[0 : ln-1]", "return state, nil"]
+/-- n of `.ErrorCode = S.OptInt(1, n)`, executed only when the action is ActionDeny -/
+def denyCode : Option Nat := some 550
 
-/-- statements of statePool.putState -/
-def putState : List String := ["if state.IsClosed() { return }", "state.Pop(state.GetTop())", "lp.Lock()", "defer lp.Unlock()", "lp.states = append(lp.states, state)"]
+/-- s of `.ErrorMsg = S.OptString(2, s)`, executed only when the action is ActionDeny -/
+def denyMsg : Option String := some "Mail denied by policy"
 
-/-- statements of statePool.createChannel -/
-def createChannel : List String := ["lp.Lock()", "defer lp.Unlock()", "ch := make(chan lua.LValue, 10)", "lp.channels[name] = ch", "for _, s := range lp.states { s.Close() }", "lp.states = lp.states[:0]", "return ch"]
+/-- the pool method with role `get` -/
+def poolGet : List Path := [
+    { conds := ["(len($recv.<free>) != 0)"], effects := ["$recv.Lock()", "defer $recv.Unlock()", "$recv.<free> := $recv.<free>[:(len($recv.<free>) - 1)]"], ret := "$recv.<free>[(len($recv.<free>) - 1)], nil" },
+    { conds := ["(len($recv.<free>) == 0)"], effects := ["$recv.Lock()", "defer $recv.Unlock()", "new()"], ret := "N, N.err" }]
 
-/-- other functions of pool.go that touch the free list -/
+/-- the pool method with role `put` -/
+def poolPut : List Path := [
+    { conds := ["!$0.IsClosed()"], effects := ["$0.IsClosed()", "$0.GetTop()", "$0.Pop($0.GetTop())", "$recv.Lock()", "defer $recv.Unlock()", "$recv.<free> := append($recv.<free>, $0)"], ret := "-" },
+    { conds := ["$0.IsClosed()"], effects := ["$0.IsClosed()"], ret := "-" }]
+
+/-- the pool method with role `flush` -/
+def poolFlush : List Path := [
+    { conds := [], effects := ["$recv.Lock()", "defer $recv.Unlock()", "$recv.<map[string]chan gopher-lua.LValue>[$0] := make(chan gopher-lua.LValue, 10)", "loop $recv.<free> { [] |- [each($recv.<free>).Close()] => next }", "$recv.<free> := $recv.<free>[:0]"], ret := "make(chan gopher-lua.LValue, 10)" }]
+
+/-- other functions of the package (verif_* files excluded) that touch the free list -/
 def otherStatesUsers : List String := []
 
-/-- functions of lua.go other than the handlers that call getState / putState: (name, gets, puts) -/
-def poolSitesOutsideHandlers : List (String × Nat × Nat) := [("NewFromReader", 1, 1), ("prepareInbucketFuncCall", 1, 0)]
+/-- functions not reachable from a listener that call the pool's get / put: (exported name or `fn`, gets, puts) -/
+def poolSitesOutsideListeners : List (String × Nat × Nat) := [("NewFromReader", 1, 1)]
 
-/-- statements of EventBroker.Emit -/
-def emit : List String := ["eb.RLock()", "defer eb.RUnlock()", "for _, l := range eb.listenerFuncs { if result := l(*event); result != nil { return result } }", "return nil"]
+/-- EventBroker.Emit -/
+def emit : List Path := [
+    { conds := [], effects := ["$recv.RLock()", "defer $recv.RUnlock()", "loop $recv.<[]func> { [(each($recv.<[]func>)(*$0) != nil)] |- [each($recv.<[]func>)(*$0)] => return each($recv.<[]func>)(*$0) | [(each($recv.<[]func>)(*$0) == nil)] |- [each($recv.<[]func>)(*$0)] => next }"], ret := "nil" }]
 
 end Ibx.Gen.Lua
